@@ -61,10 +61,10 @@ var c17Valid = map[string]string{
 // command, every value different, followed by 256 KiB of blanks
 var c17Neighbour = map[string]string{
 	"get-plugin-metadata": `{"name":"foo","description":"neighbour","version":"9.9.9","url":"https://example.com/nb","supportedContractVersions":["1.0"],"capabilities":["SIGNATURE_GENERATOR.ENVELOPE"]}`,
-	"describe-key":        `{"keyId":"nb-key","keySpec":"RSA-4096"}`,
-	"generate-signature":  `{"keyId":"nb-key","signature":"bmVpZ2hib3Vy","signingAlgorithm":"RSASSA-PSS-SHA-512","certificateChain":["bmI="]}`,
-	"generate-envelope":   `{"signatureEnvelope":"bmI=","signatureEnvelopeType":"application/cose","annotations":{"nb":"1"}}`,
-	"verify-signature":    `{"verificationResults":{"SIGNATURE_VERIFIER.REVOCATION_CHECK":{"success":false,"reason":"nb"}},"processedAttributes":["nb"]}`,
+	"describe-key":        `{"keyId":"n","keySpec":"RSA-4096"}`,
+	"generate-signature":  `{"keyId":"n","signature":"bmI=","signingAlgorithm":"RSASSA-PSS-SHA-512","certificateChain":["bmI="]}`,
+	"generate-envelope":   `{"signatureEnvelope":"bmI=","signatureEnvelopeType":"application/cose","annotations":{"n":"1"}}`,
+	"verify-signature":    `{"verificationResults":{"SIGNATURE_VERIFIER.REVOCATION_CHECK":{"success":false}},"processedAttributes":[]}`,
 }
 
 // stdout kinds
@@ -128,11 +128,10 @@ func (c17) Gen(r *rand.Rand, tier string, idx int) *core.Plan {
 	w["padSpace"] = int64(r.IntN(2))
 	w["sigpipe"] = int64(r.IntN(3) / 2)
 	// another goroutine of the host calls another plugin at the same time; the caller's logger is a scheduling point
-	w["neighbour"] = int64(r.IntN(3) / 2)
-	if w["neighbour"] == 1 && r.IntN(3) == 0 {
-		// the neighbour calls the SAME plugin with the same request, under a context of its own that never ends
-		w["neighbour"] = 2
-	}
+	// 1 free-running, another plugin; 2 the SAME plugin with the same request, under a context of its own that never
+	// ends; 3 another plugin, one complete call each time the host's logger is called (a slow log sink: the call
+	// under study waits in its logger meanwhile)
+	w["neighbour"] = int64(core.Pick(r, 0, 0, 0, 0, 0, 1, 2, 3, 3))
 	if w["neighbour"] != 0 {
 		p.Tape = core.Tape(r, 300, core.Pick(r, 0.1, 0.3, 0.6))
 	}
@@ -140,6 +139,24 @@ func (c17) Gen(r *rand.Rand, tier string, idx int) *core.Plan {
 		// the family around the cap: a reply, padding that crosses the cap, something after it
 		w["out"] = int64(len(c17Outs) - 1)
 		w["padSpace"], w["sigpipe"], w["exit"] = 1, 1, 0
+	}
+	if idx%41 == 7 {
+		// a well-behaved plugin (succeeding, or failing with a structured error) next to a neighbour call, densely
+		// interleaved: the plainest setting in which one call could see another one's bytes
+		for k := range w {
+			w[k] = 0
+		}
+		w["cmd"] = int64((idx / 41) % len(c17Cmds))
+		w["chunk"] = 32 * 1024
+		w["neighbour"] = int64(1 + (idx/41)%3)
+		if (idx/41)%3 == 0 {
+			w["exit"], w["err"] = 1, 1
+		} else {
+			// a reply followed by more blanks than the neighbour writes (whoever reuses this call's buffers
+			// writes into them in place instead of growing them)
+			w["out"], w["padSpace"], w["outSize"] = 12, 1, 400000
+		}
+		p.Tape = core.Tape(r, 300, 0.6)
 	}
 	if idx%97 == 0 {
 		// the canonical well-behaved plugin, every command
@@ -393,6 +410,57 @@ func (l c17) Exec(env *core.Env) *core.Result {
 			res.Probe("neighbour_call_to_the_same_plugin_returned")
 		})
 	}
+	turn, hostReturned := 0, false // gated neighbour: 1 = the neighbour's turn, the host waits in its logger
+	if w["neighbour"] == 3 {
+		// the neighbour's output is as long as the output of the plugin under study (when that is longer than the
+		// neighbour's reply and not huge): whoever wrote it over the other's bytes would have replaced them exactly
+		nbOut := func(total int64) int64 {
+			if n := total - int64(len(c17Neighbour[cmdName])); n > 0 && total <= 1<<20 {
+				return n
+			}
+			return 64
+		}
+		tail := int64(0)
+		if outKind == "pad-after-then-garbage" {
+			tail = int64(len(c17GarbageTail))
+		}
+		os.MkdirAll(filepath.Dir(nbExe), 0755)
+		os.WriteFile(nbExe, simexec.MakeExecutable("script", simexec.Script{"*": []simexec.Step{
+			{Op: "out", Fd: 2, Data: c17Neighbour[cmdName], Fill: nbOut(int64(len(errData)) + errFill), FillWith: " "},
+			{Op: "out", Fd: 1, Data: c17Neighbour[cmdName], Fill: nbOut(fillBefore + int64(len(outData)) + fillAfter + tail), FillWith: " "}, {Op: "exit"}}}), 0755)
+		ctx = log.WithLogger(ctx, gateLogger{func() {
+			if hostReturned {
+				return
+			}
+			turn = 1
+			rt.WaitUntil("log-sink", func() bool { return turn == 0 }, time.Time{})
+		}})
+		sim.Go("neighbour", func() {
+			nctx := context.Background()
+			pl, err := plugin.NewCLIPlugin(nctx, c17Name, nbExe)
+			for {
+				rt.WaitUntil("neighbour-turn", func() bool { return turn == 1 || hostReturned }, time.Time{})
+				if hostReturned && turn != 1 {
+					return
+				}
+				if err == nil {
+					got, cerr := call(nctx, pl)
+					if cerr != nil {
+						res.Probe("neighbour_call_failed")
+					} else {
+						res.Probe("neighbour_call_succeeded")
+						want := reflect.New(reflect.TypeOf(got).Elem()).Interface()
+						if json.Unmarshal([]byte(c17Neighbour[cmdName]), want) == nil && !reflect.DeepEqual(want, got) {
+							wb, _ := json.Marshal(want)
+							gb, _ := json.Marshal(got)
+							res.Violate("C17/reply-of-another-call", "cmd="+cmdName, "a concurrent call to another plugin returned %s; its own process printed %s", gb, wb)
+						}
+					}
+				}
+				turn = 0
+			}
+		})
+	}
 	if w["neighbour"] == 1 {
 		ctx = log.WithLogger(ctx, yieldLogger{})
 		os.MkdirAll(filepath.Dir(nbExe), 0755)
@@ -454,6 +522,7 @@ func (l c17) Exec(env *core.Env) *core.Result {
 		startSim = sim.Now()
 		if err != nil {
 			callErr, returned, returnSim = err, true, sim.Now()
+			hostReturned = true
 			return
 		}
 		switch cmdName {
@@ -469,6 +538,7 @@ func (l c17) Exec(env *core.Env) *core.Result {
 			resp, callErr = pl.VerifySignature(ctx, &pf.VerifySignatureRequest{})
 		}
 		returned, returnSim = true, sim.Now()
+		hostReturned = true
 	})
 	_ = host
 	if w["ctx"] == 2 {
